@@ -219,6 +219,16 @@ def check(rep, ctx):
     for row in index_builder_rows(ctx):
         rep.check(R15, row["ok"], construct="codegen.generate_index:build_index", stmt=row["case"], message=row["message"],
                   file="codegen/generate_index.py", line=0)
+    from ..gen_tables import special_name_rows
+    R16 = rep.rule("C16-G16-special-names", "the parser's name-based special cases (ErrorCode, ...Ms durations and timestamps) give every shipped scalar field "
+                   "the kafka type it ships with", floor=250)
+    for row in special_name_rows(ctx):
+        rep.check(R16, row["ok"], construct=row["construct"], stmt=row["stmt"], message=row["message"], file=row["file"], line=row["line"])
+    from ..gen_tables import custom_type_rows
+    R17 = rep.rule("C16-G17-custom-types", "the definition emitted for every shipped custom type is a subclass of the shipped base", floor=5)
+    for row in custom_type_rows(ctx):
+        rep.check(R17, row["ok"], construct="codegen.generate_schema:CustomTypeDef.get_definition", stmt=row["case"], message=row["message"],
+                  file="codegen/generate_schema.py", line=0)
     R8 = rep.rule("C16-G8-field", "format_dataclass_field: an explicit default is emitted as given whatever the tagging/ignorability; "
                   "metadata carries the kafka type and the tag iff tagged", floor=40,
                   necessary_because="ApiVersionsResponse.FinalizedFeaturesEpoch is tagged, ignorable and has default -1: it must stay -1")
